@@ -234,6 +234,7 @@ func (x *electExtra) checkElection(what string, producers []types.Address, deleg
 		return
 	}
 	x.seq++
+	csElection(c, producers, delegs) // cs-* lines: the same value through the Lean model of the store (s_consstore.go)
 	ed := storage.GenElectionData(producers, delegs)
 	wantP, wantD := producersText(producers), delegsText(delegs)
 	distinct := map[types.Address]bool{}
@@ -412,6 +413,7 @@ func (x *electExtra) checkPoint() {
 			c.Fail("point persistence (%s): point %d/%d was stored as %s and is read back as %s; %s", path, prefix, height, want, g, firstDiff(want, g))
 		}
 	}
+	csPoint(c, p, prefix, height) // cs-* lines (s_consstore.go)
 	var buf []byte
 	var err error
 	if pn := safely(func() { buf, err = p.Marshal() }); pn != "" || err != nil {
